@@ -99,6 +99,10 @@ impl BerHeader {
                 let Some(&b) = i.get(current) else {
                     return Err(Err::Incomplete(Needed::Unknown));
                 };
+                if ln > (usize::MAX >> 8) {
+                    // Doesn't fit, and no datagram can be that long
+                    return Err(Err::Incomplete(Needed::Unknown));
+                }
                 ln = (ln << 8) + (b as usize);
                 current += 1;
             }
